@@ -399,7 +399,7 @@ Definition c15_make_auth (toks : list (list N)) : list (list N) :=
   end.
 
 (* ---------------- C05 ---------------- *)
-From TT Require Import Model.TlsDemux.
+From TT Require Import Model.TlsDemux Generated.DemuxFacts.
 
 Fixpoint dec_names (fuel : nat) (b : list N) : list (list N) :=
   match fuel with
@@ -463,6 +463,25 @@ Definition c05_select (toks : list (list N)) : list (list N) :=
   | flags :: main :: alts :: rp :: ping :: speed :: qs =>
     let c := c05_config flags main alts rp ping speed in
     if valid_hosts c then c05_queries (length qs) c qs else [[2]]
+  | _ => REJECT_TOK
+  end.
+
+(* the QUIC listener: the ALPN token of a query is ignored (the listener speaks h3 only); out per query [1; channel] *)
+Fixpoint c05_quic_queries (fuel : nat) (c : config) (qs : list (list N)) : list (list N) :=
+  match fuel with
+  | O => []
+  | S f => match qs with
+           | _ :: sni :: rest =>
+             [1; chan_code (m_channel (select_quic QUIC_SERVES_THE_SELECTION_OR_BOOTSTRAP c 0 (Some sni)))] :: c05_quic_queries f c rest
+           | _ => []
+           end
+  end.
+
+Definition c05_select_quic (toks : list (list N)) : list (list N) :=
+  match toks with
+  | flags :: main :: alts :: rp :: ping :: speed :: qs =>
+    let c := c05_config flags main alts rp ping speed in
+    if valid_hosts c then c05_quic_queries (length qs) c qs else [[2]]
   | _ => REJECT_TOK
   end.
 
